@@ -86,10 +86,19 @@ impl PerVisibleAlphabetConstraints {
             Constraint::Subtype(c) if c.extensible => Ok(None),
             Constraint::Subtype(c) => match &c.set {
                 ElementOrSetOperation::Element(e) => Self::from_subtype_elem(Some(e), string_type),
-                ElementOrSetOperation::SetOperation(s) => Self::from_subtype_elem(
-                    fold_constraint_set(s, Some(string_type.character_set()), false)?.as_ref(),
-                    string_type,
-                ),
+                // `FROM (..) ^ FROM (..)`, `FROM (..) ^ SIZE (..)`: the alphabets of the operands are
+                // combined as sets; an operand that is no alphabet constraint is not PER-visible here
+                ElementOrSetOperation::SetOperation(s) => {
+                    match Self::from_set_operation(s, string_type)? {
+                        Some(alphabet) if alphabet.charset_subsets.is_empty() => {
+                            Err(GrammarError::new(
+                                "The permitted alphabets of the set operation have no character in common",
+                                GrammarErrorType::UnpackingError,
+                            ))
+                        }
+                        alphabet => Ok(alphabet),
+                    }
+                }
             },
             _ => Ok(None),
         }
